@@ -26,6 +26,11 @@
 // the read cache) and written before it (rows of this execution), and with
 // scans whose bounds are nil, "", every key and a bound beyond the last key,
 // consumed fully, stopped after one row, closed at once.
+//
+// The backing state may also MOVE during an execution (moving.go): between two
+// calls of a program the node confirms one more block that writes one key; the
+// read set must keep the version each key had when the execution first read it
+// and the replay over it must reproduce what the execution returned.
 package c10
 
 import (
@@ -636,6 +641,24 @@ func run(tier core.Tier) *core.Report {
 			Case: caseOf(h.b, h.prog), Expected: h.f.expected, Observed: h.f.observed})
 	}
 
+	// the moving-state dimension (moving.go)
+	mtotal, mhits, mfams, mdone, merr := runMoving(rep, tier)
+	if merr != nil {
+		restore()
+		core.HarnessError("C10 fixture (moving state): %v", merr)
+	}
+	mkeys := make([]string, 0, len(mhits))
+	for k := range mhits {
+		mkeys = append(mkeys, k)
+	}
+	sort.Strings(mkeys)
+	for _, k := range mkeys {
+		h := mhits[k]
+		occ[k] = h.count
+		rep.Violation(core.Violation{Key: k, Summary: fmt.Sprintf("%s [%d (backing, commit, position, program) cases of this run show it]", h.f.summary, h.count),
+			Case: h.cs, Expected: h.f.expected, Observed: h.f.observed})
+	}
+
 	complete := true
 	var famCov []map[string]interface{}
 	programs := 0
@@ -647,8 +670,43 @@ func run(tier core.Tier) *core.Report {
 		programs += done[i] / len(f.backs)
 		famCov = append(famCov, map[string]interface{}{"universe": f.u.name, "alphabet": f.name, "alphabet_size": len(f.alpha), "length": f.length, "programs": f.size(), "programs_done": done[i] / len(f.backs), "backing_states": len(f.backs)})
 	}
+	nCommits := len(allCommits(uABC))
+	movingCases := 0
+	var mfamCov []map[string]interface{}
+	for i, f := range mfams {
+		// mdone counts (backing, commit, program) triples, each run with every position of the commit
+		if mdone[i] != f.size()*len(f.backs)*nCommits {
+			complete = false
+		}
+		movingCases += mdone[i] * (f.length - 1)
+		mfamCov = append(mfamCov, map[string]interface{}{"universe": f.u.name, "alphabet": f.name, "alphabet_size": len(f.alpha), "length": f.length, "programs": f.size(),
+			"programs_done": mdone[i] / (len(f.backs) * nCommits), "backing_states": len(f.backs), "commits": nCommits, "positions_of_the_commit": f.length - 1})
+	}
 	rep.Set("families", famCov)
 	rep.Set("programs", programs)
+	rep.Set("moving_state_dimension", map[string]interface{}{
+		"what":     "between two calls of a program the node confirms one more block that writes one key of bucket vb (a new version): the backing state CHANGES during the execution, as it does for a pre-execution on a live node",
+		"commits":  "put (fresh value A / B / C) and delete of each of the keys a, b, c: 6, each on all 27 backings (so the commit creates, overwrites, deletes, re-creates and deletes-again a row)",
+		"families": mfamCov,
+		"cases_(backing,commit,position,program)": movingCases,
+		"cases_executed": mtotal.traces,
+		"calls_executed": mtotal.ops,
+		"abstract_states_(backing,commit,reference_state,first_read,position)": len(mtotal.states),
+		"replays_over_read_set":                      mtotal.replays,
+		"replay_calls":                               mtotal.replayOps,
+		"commit_blocks_refused_by_the_node":          mtotal.commitsRefused,
+		"replays_not_compared_phantom_of_the_commit": mtotal.phantomSkipped,
+		"vacuity": map[string]interface{}{
+			"cases_with_put_commit": mtotal.byCommit[0], "cases_with_delete_commit": mtotal.byCommit[1],
+			"key_of_commit_recorded_with_version_before_commit": mtotal.recordedOld, "key_of_commit_recorded_with_version_of_commit": mtotal.recordedNew, "key_of_commit_not_in_read_set": mtotal.notRecorded,
+			"key_of_commit_first_read_before_commit_and_read_again_after_by_get":  mtotal.rereadByGet,
+			"key_of_commit_first_read_before_commit_and_scanned_again_after":      mtotal.rereadByScan,
+			"key_of_commit_first_read_after_commit":                               mtotal.firstReadAfter,
+			"rows_yielded_after_commit_with_the_value_of_the_commit":              mtotal.rowsOfCommitYielded,
+			"rows_of_key_of_commit_yielded_after_commit_with_the_earlier_version": mtotal.rowsOfOldYieldedAfter,
+			"cases_with_a_finding": mtotal.violating, "cases_clean": mtotal.traces - mtotal.violating,
+		},
+	})
 	nBack, seenU := 0, map[uint8]bool{}
 	for _, f := range fams {
 		if !seenU[f.u.idx] {
@@ -705,9 +763,14 @@ func run(tier core.Tier) *core.Report {
 		"A trace is non-trivial when it reaches a new reference state (`states`). "+
 		"KEY DIMENSION: the enumeration is repeated per key universe (`key_dimension`): the plain keys (a,b,c) and universes of boundary keys - the empty key \"\" (an empty non-nil slice; raw key `vb/`; in universe nil_key the point calls pass it as a nil slice, which is how it arrives through the contract bridge), the strict-prefix chain a < a\\x00 < ab, the bytes 0x00 and 0xff, the bucket/key separator `/` alone and inside a key next to its first component (a, a/b). "+
 		"In each universe every key is a row of the committed state in every status (all 3^n backings: never written / live / deleted), a row of the read cache (Get / scan before the scan under test) and a row written or deleted in this execution, in bucket vb, in vb2 (whose name extends vb) and in the transient bucket; "+
-		"scan bounds range over nil, \"\", every key and a bound beyond the last key, with full consumption, stop after one row and close at once. Oracle: the same reference (exactly the live keys of [start,end) in byte order, each once, with the latest value; start \"\" is exact where \"\" is a key) and replay equality; violation keys of these universes end in the kind of key concerned (.empty_key, .empty_key_passed_as_nil, .key_with_0x00, .key_with_0xff, .key_with_separator, .plain_key).")
+		"scan bounds range over nil, \"\", every key and a bound beyond the last key, with full consumption, stop after one row and close at once. Oracle: the same reference (exactly the live keys of [start,end) in byte order, each once, with the latest value; start \"\" is exact where \"\" is a key) and replay equality; violation keys of these universes end in the kind of key concerned (.empty_key, .empty_key_passed_as_nil, .key_with_0x00, .key_with_0xff, .key_with_separator, .plain_key). "+
+		"MOVING-STATE DIMENSION (`moving_state_dimension`): every program of the families `moving` (14 calls on vb: Get / Put / Del of a, b, c; 6 scans) x every position between two calls x every commit (put with a fresh value / delete of a, b or c: one more block confirmed by the node, a new version of the key) x all 27 backings: "+
+		"the sandbox reads the real XModel of the node before the commit up to that position and the real XModel of a node on a copy of the stores that has confirmed the commit block from there on (at most one commit per execution). "+
+		"Oracle: (1) first read wins - every read-set entry carries the version that the first read of the key in this execution saw (Get / Put / Del of it, the scan that yielded it; a scan that may have fetched the row earlier without yielding it makes both versions acceptable), later reads of the same key must not change the record; every key read is recorded; "+
+		"(2) re-running the calls over the read set alone returns the results the execution returned and the same write set (not compared when a scan before the commit could only have seen the key of the commit absent, which leaves no record, and the commit makes it live). "+
+		"A case is non-trivial when it reaches a new (backing, commit, reference state, first read of the key of the commit, position) combination.")
 	rep.Set("state_definition", "reference state = universe x backing (3^keys) x per bucket/key {untouched, put, deleted} x {must be in the read set} x outputs of A (0..10) and of C (0..2) not yet selected x {a transfer was refused by the utxo reader}")
-	rep.Set("bound", describeBound(fams))
+	rep.Set("bound", describeBound(fams)+"; moving state: "+describeMovingBound(mfams, nCommits))
 	rep.Set("reduction", "values: the value of a Put is fixed by its position in the program (p,q,r,s,t), never the delete marker; the sandbox compares values only with the delete marker and Del(k) = Put(k, marker) is enumerated as Del. "+
 		"Alphabets: lengths 1-2 use the complete alphabet of the quantifier (368 calls); longer programs use the sub-alphabets listed in `families` (fewer bound pairs / consumptions, fewer keys in the empty and the transient bucket, 4-5 of the 17 transfers; families xfer / xfercore / mix carry the long programs around refused transfers). "+
 		"Transfers: outputs of one payer have equal size, so the ledger's choice among them (map order of its cache) changes neither the number selected nor the change; inputs are compared by owner and amount with the model and exactly (reference included) between run and replay. "+
@@ -722,6 +785,7 @@ func run(tier core.Tier) *core.Report {
 	rep.Assume("the node's UTXO reader is wrapped only to release the per-output locks after each program; it delegates every call (a refused SelectUtxo of the ledger releases what it tried by itself)")
 	rep.Assume("first run: a transfer must be accepted iff its amount is positive and covered by the payer's outputs not selected earlier in the same execution (the ledger locks what it selects)")
 	rep.Assume("nil / empty bounds: the statement does not fix their absolute meaning, so scans with such a bound are judged only by: yielded keys are live, ascending, carry the visible value; plus the replay clause")
+	rep.Assume("moving state: a call of the program is atomic with respect to the commit (the commit lands between two calls, scans are consumed within their call); the two states are two real nodes on the same stores up to the commit block, the reader handed to the sandbox only chooses which of the two real XModel readers answers")
 	rep.Assume("phantoms: the read set is not required to cover keys a scan did not yield (absent or deleted in the store)")
 	rep.Assume("bucket names hold no separator \"/\" (contract names and kernel buckets never do), so the raw key bucket/key splits at its first \"/\"; keys holding the separator are part of the key dimension, buckets holding it are not")
 	rep.Assume("the empty key is a legal key (no layer refuses it: the bridge passes an empty key through, as a nil slice); the empty slice and the nil slice name the same row")
@@ -774,6 +838,14 @@ func describeBound(fams []family) string {
 	}
 	return "all programs of " + strings.Join(parts, ", ") + "; backing states {never written, live, deleted}^3 of (a,b,c) in bucket vb (27; the families listed with 1 backing: -LD); buckets vb, vb2 (empty), $transient; " +
 		"token state: A owns 10 outputs of 100, C 2 outputs of 2, D nothing; every transfer pays B; boundary-key universes (keys and bounds as Go string literals; backings {never written, live, deleted}^keys): " + strings.Join(us, "; ")
+}
+
+func describeMovingBound(fams []family, nCommits int) string {
+	var parts []string
+	for _, f := range fams {
+		parts = append(parts, fmt.Sprintf("%s^%d (%d calls, %d programs, %d positions of the commit, %d commits, %d backings)", f.name, f.length, len(f.alpha), f.size(), f.length-1, nCommits, len(f.backs)))
+	}
+	return "all programs of " + strings.Join(parts, ", ") + "; exactly one commit per case, plain universe (a,b,c), bucket vb"
 }
 
 // samples: a few actual traces (fixed programs on fixed backings).
@@ -857,6 +929,8 @@ func replay(c json.RawMessage) (bool, string, error) {
 		Universe string   `json:"universe"` // absent: the plain universe (a,b,c)
 		Backing  string   `json:"backing"`
 		Program  []string `json:"program"`
+		Commit   string   `json:"commit"`             // moving-state cases only
+		CommitAt int      `json:"commit_before_call"` // 1-based
 	}
 	if err := json.Unmarshal(c, &cs); err != nil {
 		return false, "", err
@@ -876,6 +950,13 @@ func replay(c json.RawMessage) (bool, string, error) {
 			return false, "", err
 		}
 		prog = append(prog, o)
+	}
+	if cs.Commit != "" {
+		c, err := parseCommit(u, cs.Commit)
+		if err != nil {
+			return false, "", err
+		}
+		return replayMoving(b, prog, c, cs.CommitAt-1)
 	}
 	world.Init()
 	restore := silence()
